@@ -46,7 +46,7 @@ func resolveStruct(rv reflect.Value, fieldName string) (any, bool) {
 	rt := rv.Type()
 
 	// Try field name first
-	if f, ok := rt.FieldByName(fieldName); ok {
+	if f, ok := rt.FieldByName(fieldName); ok && f.IsExported() {
 		fv := rv.FieldByIndex(f.Index)
 		return fv.Interface(), true
 	}
@@ -54,6 +54,9 @@ func resolveStruct(rv reflect.Value, fieldName string) (any, bool) {
 	// Try JSON tag
 	for i := range rt.NumField() {
 		f := rt.Field(i)
+		if !f.IsExported() {
+			continue
+		}
 		tag := f.Tag.Get("json")
 		if tag == "" {
 			continue
